@@ -57,6 +57,18 @@ Adopt(dir, seq, mw, keep, ka) ==
                     IF dir[i].own /\ dir[i].last > 0 THEN dir[i].last ELSE 0,
                     dir[i].lines, dir[i].own)]
   IN [Fresh(fs, Len(dir) + 1, mw, keep, ka) EXCEPT !.seq = seq]
+(* E.ties: EVERY file found before the start carries the same mtime (a coarse file-system clock and files written in   *)
+(* quick succession).  The writer cannot order them; whichever it deletes, the byte accounting must still be right:   *)
+(* what is left of the old files fits the keep size, and the deletions stopped as soon as it did.                      *)
+TieExplains(dir, obs, keep) ==
+  LET old == SelectSeq(obs, LAMBDA o : o.last > 0 \/ o.lines # 1 \/ ~o.own)      \* everything except the new start file
+      left == BagOf([i \in DOMAIN old |-> Seen(old[i])])
+      was == BagOf([i \in DOMAIN dir |-> Seen(dir[i])])
+      gone == {x \in DOMAIN was : (IF x \in DOMAIN left THEN left[x] ELSE 0) < was[x]}
+      leftBytes == ObsBytes(old)
+  IN /\ \A x \in DOMAIN left : x \in DOMAIN was /\ left[x] <= was[x]             \* nothing appeared
+     /\ leftBytes <= keep                                                        \* trimmed to the keep size ...
+     /\ (gone = {} \/ \E x \in gone : leftBytes + x.len > keep)                  \* ... and not further than needed
 Wrap(s, lo, hi) == [s |-> s, cLo |-> lo, cHi |-> hi]
 SeqNoOf(P) == IF P = {} THEN 0 ELSE (CHOOSE p \in P : TRUE).s.seq
 Good(s) == ~s.crashed /\ ContiguousS(s) /\ PerFileS(s) /\ BookkeepingS(s)
@@ -70,6 +82,8 @@ TStart ==
      IN IF ~E.afterCrash /\ poss # {} /\ prior = {} THEN Fail(<<"the directory changed while the writer was stopped", E.dir>>)
         ELSE IF ~E.ok THEN Fail(<<"start_writer_thread failed", E.err>>)
         ELSE IF s1.crashed THEN Fail(<<"specification: start-up cannot complete">>)
+        ELSE IF ~SameDir(s1.files, E.files) /\ E.ties /\ TieExplains(E.dir, E.files, E.k)
+        THEN Fail(<<"TiedMtimes", "files of an earlier run that share one mtime were deleted out of log order", E.files>>)
         ELSE IF ~SameDir(s1.files, E.files)
         THEN Fail(<<"directory after start", "expected", [i \in DOMAIN s1.files |-> Proj(s1.files[i])], "got", E.files>>)
         ELSE IF ~Lexical(E.files) THEN Fail(<<"a file of this log has a broken or out-of-order line", E.files>>)
